@@ -281,13 +281,26 @@ func TestC07Continuity(t *testing.T) {
 				target = h2 + 1
 			}
 			delivered := 0
-			net.mu.Lock()
-			for _, ev := range net.Tap {
-				if ev.From == obs && !ev.Injected && ev.Round == target {
-					delivered = 1
-					break
+			ownEmitted := func() bool {
+				net.mu.Lock()
+				defer net.mu.Unlock()
+				for _, ev := range net.Tap {
+					if ev.From == obs && !ev.Injected && ev.Round == target {
+						return true
+					}
 				}
+				return false
 			}
+			// the observer's own partial counts: wait for it (under load its ticker may run late), so that the number handed
+			// over below really is one short of the threshold
+			for i := 0; i < 400 && !ownEmitted(); i++ {
+				time.Sleep(5 * time.Millisecond)
+			}
+			ownCounted := ownEmitted()
+			if ownCounted {
+				delivered = 1
+			}
+			net.mu.Lock()
 			var cands []*queued
 			seenFrom := map[int]bool{}
 			for _, q := range net.queue {
@@ -331,6 +344,11 @@ func TestC07Continuity(t *testing.T) {
 			note("observer n%d got %d/%d new-epoch partials for r%d", obs, delivered, t1, target)
 			if f := net.CheckThreshold(epochAt); f != nil {
 				fail(f)
+			}
+			if !ownCounted && ownEmitted() {
+				// own partial appeared only after the count: the observer legitimately had one more than assumed
+				delivered++
+				rec.Label("c07/own-partial-late")
 			}
 			if delivered < t1 {
 				if h3, _ := net.Nodes[obs].Head(); h3 >= target && !net.SyncedBefore(net.Nodes[obs].Addr, target, 1<<62) {
